@@ -897,7 +897,7 @@ def C08_replay_product_statement : Prop :=
 limit with nothing sent, where the division form sends entry 0 -/
 theorem C08_replay_product_counterexample : ¬ C08_replay_product_statement := by
   intro h
-  have := congrArg (fun a => match a with | Act.offer _ _ => true | _ => false) (h (2 ^ 63) 5 2 0 false (by decide))
+  have := congrArg (fun a => match a with | Act.offer _ _ => true | _ => false) (h 9223372036854775808 5 2 0 false (by decide))
   revert this
   decide
 
